@@ -461,6 +461,8 @@ def shrink_l1(tag, m, label_re, kinds=None, max_steps=80):
 def alone_l1(tag, m):
     """the same case, alone in a fresh process: the mismatch records it gives there (None if it cannot be re-run by id)"""
     parts = m['id'].split('/')
+    if parts[0] in ('ext', 'mut'):
+        return run_ext_single(tag + '-alone', m.get('entry', 'attr'), m.get('args', ''), m.get('item', '')) if m.get('item') else None
     if len(parts) != 3 or '@' in parts[2] or parts[0] in ('meta15', 'metaDump'):
         return None
     fam, seed, idx = parts
